@@ -23,6 +23,7 @@ func runC37() {
 	log.SetOutput(io.Discard)
 	cases := hlib.ReadAllCases[synCase]()
 	results := make([]hlib.Result, len(cases))
+	extras := make([][][2]string, len(cases))
 	hlib.Parallel(len(cases), 8, func(i int) {
 		c := &cases[i]
 		src := wrapSource(c)
@@ -45,6 +46,9 @@ func runC37() {
 		r := roundTrip(fset, gf)
 		observed := "same"
 		if r.V == "viol" {
+			if len(r.More) > 1 {
+				extras[i] = r.More[1:]
+			}
 			observed = r.Sig
 			if !predictMatches(c.Predict, observed) {
 				r.Detail += "\n  (NOT predicted by the model's converter table)"
@@ -65,8 +69,11 @@ func runC37() {
 		}
 		results[i] = res
 	})
-	for _, r := range results {
+	for i, r := range results {
 		hlib.Emit(r)
+		for _, m := range extras[i] {
+			hlib.Emit(hlib.Result{Idx: i, V: "viol", Sig: m[0], Detail: m[1] + "\n  source: " + renderText(cases[i].Text), Input: r.Input, NT: r.NT})
+		}
 	}
 }
 
@@ -83,7 +90,7 @@ func predictMatches(pred []string, observed string) bool {
 		class = "panic:togo:IndexListExpr"
 	case strings.HasSuffix(observed, ".TypeParams"):
 		class = "lost:TypeParams"
-	case strings.HasSuffix(observed, "Field.Names"):
+	case strings.HasSuffix(observed, "Field.Names(empty)"):
 		class = "lost:Names"
 	}
 	for _, p := range pred {
